@@ -9,7 +9,7 @@ out = os.environ.get("SWEEP_OUT", "/root/scratch/vsweep"); os.makedirs(out, exis
 bad = collections.Counter()
 for p in props:
     repo = vx.Repo(os.environ.get("VERIF_REPO", "/repo")); ov = vx.parse_overlay("/verif/contracts/all.vs")
-    if not any(p in fs.serves for fs in ov.fns.values()): continue
+    if not any(p in fs.serves or (vx.DERIVED_FROM.get(p, set()) & set(fs.serves)) for fs in ov.fns.values()): continue
     u = vx.generate(repo, ov, p)
     path = os.path.join(out, "unit_%s.rs" % p); open(path, "w").write(u.text)
     for sd in seeds:
